@@ -1,7 +1,13 @@
 //! One deterministic PRNG (splitmix64) from which every random choice of a run derives.
 pub struct Rng(pub u64);
 impl Rng {
-    pub fn new(seed: u64) -> Self { Rng(seed.wrapping_mul(0x9E3779B97F4A7C15).wrapping_add(0x1234567)) }
+    pub fn new(seed: u64) -> Self {
+        // mix the seed so that neighbouring seeds give unrelated streams (shards use seed*1000+s)
+        let mut z = seed.wrapping_add(0x9E3779B97F4A7C15).wrapping_mul(0xD1342543DE82EF95);
+        z = (z ^ (z >> 32)).wrapping_mul(0xBF58476D1CE4E5B9);
+        z = (z ^ (z >> 29)).wrapping_mul(0x94D049BB133111EB);
+        Rng(z ^ (z >> 32))
+    }
     pub fn next(&mut self) -> u64 {
         self.0 = self.0.wrapping_add(0x9E3779B97F4A7C15);
         let mut z = self.0;
